@@ -51,7 +51,10 @@ func isValidFirmwareStatus(fl validator.FieldLevel) bool {
 		FirmwareStatusInstallScheduled,
 		FirmwareStatusInstallVerificationFailed,
 		FirmwareStatusInvalidSignature,
-		FirmwareStatusSignatureVerified:
+		FirmwareStatusSignatureVerified,
+		FirmwareStatusCertificateVerified,
+		FirmwareStatusInvalidCertificate,
+		FirmwareStatusRevokedCertificate:
 		return true
 	default:
 		return false
